@@ -30,7 +30,7 @@ Drift(c, i, st, dev) ==
            r == TimedUpd(c.kind, c.a, c.b, st, e.batch, dev) IN
        IF r.err # (e.exc # "") THEN i
        ELSE IF r.err THEN 0
-       ELSE IF r.ret # e.ret \/ r.st.prev # e.prev \/ r.st.rs # e.rs THEN i
+       ELSE IF r.ret # e.ret \/ (e.mem /\ (r.st.prev # e.prev \/ r.st.rs # e.rs)) THEN i
        ELSE Drift(c, i + 1, r.st, dev)
 
 Fail(c) ==
@@ -39,7 +39,6 @@ Fail(c) ==
       nonstrict == {i \in 1..Len(c.events) : ~StrictlyIncreasing(c.events[i].ret)} IN
   IF bad # {} THEN <<"op.exc", "no exception", c.events[CHOOSE i \in bad : TRUE].exc>>
   ELSE IF ~Monotone(em) THEN <<"op.monotone", "non-decreasing time-stamps", em>>
-  ELSE IF nonstrict # {} THEN <<"op.batch_strict", "strictly increasing time-stamps in one batch", c.events[CHOOSE i \in nonstrict : TRUE].ret>>
   ELSE IF ~AgreesWith(em, c.kind, c.a, c.b, c.sig) THEN <<"op.value", RefCells(c.kind, c.a, c.b, c.sig), em>>
   ELSE <<>>
 
@@ -52,6 +51,9 @@ Verdict(c) ==
    exp |-> IF f = <<>> THEN "" ELSE ToString(f[2]),
    got |-> IF f = <<>> THEN "" ELSE ToString(f[3]),
    explained |-> {}, undef |-> 0, steps |-> Len(c.events),
+   \* (diagnostics, not verdicts: call-by-call equality with the model; batches with strictly increasing time-stamps - the
+   \*  property constrains the concatenation only, which must be non-decreasing)
+   strict |-> \A i \in 1..Len(c.events) : StrictlyIncreasing(c.events[i].ret),
    exact |-> d = 0]
 
 TInit == tid = 1
